@@ -55,22 +55,38 @@ def gen_service_program(rng: Any, *, crash: bool = False) -> dict[str, Any]:
             action = rng.choice(ACTIONS)
             spec = {"action": action, "cleanup": rng.choice([0, 0, 0.5, 1, 2]), "action_delay": rng.choice([0, 0.5]) if action == "async_callable" else 0,
                     "ends_by_itself": None, "started_value": rng.random() < 0.5, "own_teardown": rng.random() < 0.4,
-                    "spawn_via": rng.choice(["method", "shortcut"])}
+                    "spawn_via": rng.choice(["method", "shortcut"]),
+                    # how a callable teardown action is given: plain function, functools.partial, or an object with __call__
+                    "action_form": rng.choice(["function", "function", "partial", "object"]),
+                    "start_delay": 0}
+            if spec["started_value"] and rng.random() < 0.4:
+                spec["start_delay"] = 0.5  # the task takes a while before it reports itself started
             if action == "none" or rng.random() < 0.2:
                 spec["ends_by_itself"] = rng.choice([0.625, 1.125, 3.125, 6.125])  # never ties with the 0.5-grid of the owner
             steps.append(["service", fresh(), spec])
-        elif r < 0.9:
+        elif r < 0.86:
             steps.append(["sleep", rng.choice([0.5, 1, 2])])
+        elif r < 0.92 and not crash:
+            # a teardown callback that itself starts a service task while the context is being torn down
+            steps.append(["teardown_starts_service", fresh(), {"action": rng.choice(["cancel", "sync_callable", "async_callable"]), "cleanup": rng.choice([0, 0.5, 1]),
+                                                             "action_delay": 0, "ends_by_itself": None, "started_value": rng.random() < 0.5, "own_teardown": rng.random() < 0.4,
+                                                             "spawn_via": "method", "action_form": "function", "start_delay": 0, "sid": fresh()}])
         else:
             steps.append(["yield", rng.randint(1, 3)])
     if n_services == 0:
         steps.append(["service", fresh(), {"action": rng.choice(ACTIONS[:4]), "cleanup": 1, "action_delay": 0, "ends_by_itself": 2.125 if rng.random() < 0.5 else None,
-                                           "started_value": True, "own_teardown": True, "spawn_via": "method"}])
+                                           "started_value": True, "own_teardown": True, "spawn_via": "method", "action_form": "function", "start_delay": 0}])
         if steps[-1][2]["action"] == "none":
             steps[-1][2]["ends_by_itself"] = 2.125
     steps.append(["sleep", rng.choice([0, 0.5, 1, 4])])
+    party = []
+    if not crash and rng.random() < 0.5:
+        # a second task registering resources in the same context concurrently (on a .25 grid, the owner is on a .5 grid)
+        for _ in range(rng.randint(1, 4)):
+            party.append(["sleep", rng.choice([0.25, 0.25, 0.75])])
+            party.append(["resource", fresh()])
     prog = {"backend": rng.choice(["asyncio", "trio"]), "sched_seed": rng.randrange(1 << 30), "shuffle": rng.random() < 0.5,
-            "nested": rng.random() < 0.5, "steps": steps, "crash": None}
+            "nested": rng.random() < 0.5, "steps": steps, "crash": None, "party": party}
     if crash:
         svc = [s for s in steps if s[0] == "service"]
         victim = rng.choice(svc)
@@ -89,6 +105,7 @@ class ServiceRun:
         self.crash: BaseException | None = None
         self.owner: Any = None
         self.start_values: dict[int, Any] = {}
+        self.registered: list[int] = []
         self.problems: list[str] = []
 
     def t(self) -> float:
@@ -116,6 +133,8 @@ class ServiceRun:
 
                 add_teardown_callback(own_teardown)
             if task_status is not None:
+                if spec.get("start_delay"):
+                    await anyio.sleep(spec["start_delay"])
                 task_status.started(("started", sid))
             cancelled = False
             try:
@@ -188,15 +207,64 @@ class ServiceRun:
             def teardown_action() -> None:
                 run.log("svc-action", sid)
                 raise StopNow("teardown action failed badly")
+        if callable(teardown_action):
+            form = spec.get("action_form", "function")
+            if form == "partial":
+                import functools
+
+                teardown_action = functools.partial(teardown_action)
+            elif form == "object":
+                inner_action = teardown_action
+
+                class Stopper:
+                    """a callable *object* (no __qualname__ / __name__ of its own)"""
+
+                    def __call__(self) -> Any:
+                        return inner_action()
+
+                teardown_action = Stopper()
         return func, teardown_action
 
     async def body(self, ctx: Any) -> None:
         from asphalt.core import add_resource, add_teardown_callback, start_service_task
 
         run = self
-        registered: list[int] = []
+        registered: list[int] = self.registered
+
+        async def party() -> None:
+            for st in self.prog.get("party", []):
+                if st[0] == "sleep":
+                    await anyio.sleep(st[1])
+                else:
+                    rid = st[1]
+                    ctx.add_resource(ST0(), f"r{rid}", teardown_callback=lambda rid=rid: run.log("td-run", f"r{rid}"))
+                    registered.append(rid)
+                    run.log("reg", f"r{rid}", by="party")
+
+        async with create_task_group() as ptg:
+            ptg.start_soon(party)
+            await self.owner_steps(ctx, registered)
+        self.log("block-end", "owner")
+
+    async def owner_steps(self, ctx: Any, registered: list[int]) -> None:
+        from asphalt.core import add_resource, add_teardown_callback, start_service_task
+
+        run = self
         for st in self.prog["steps"]:
             kind = st[0]
+            if kind == "teardown_starts_service":
+                tid, spec = st[1], st[2]
+
+                async def starter(tid: int = tid, spec: Any = spec) -> None:
+                    run.log("td-run", f"x{tid}")
+                    func, action = run.make_service(spec["sid"], spec, list(registered))
+                    run.log("svc-spawn", spec["sid"], visible_expected=sorted(f"r{r}" for r in registered), during_teardown=True)
+                    val = await ctx.start_service_task(func, f"svc{spec['sid']}", teardown_action=action)
+                    run.log("reg", f"s{spec['sid']}", start_value=repr(val), during_teardown=True)
+
+                add_teardown_callback(starter)
+                self.log("reg", f"x{tid}")
+                continue
             if kind == "resource":
                 rid = st[1]
                 ctx.add_resource(ST0(), f"r{rid}", teardown_callback=lambda rid=rid: run.log("td-run", f"r{rid}"))
@@ -222,7 +290,6 @@ class ServiceRun:
             else:
                 for _ in range(st[1]):
                     await checkpoint()
-        self.log("block-end", "owner")
 
     async def main(self) -> None:
         from asphalt.core import Context
@@ -288,6 +355,9 @@ def check_service(run: ServiceRun) -> tuple[list[dict[str, Any]], dict[str, int]
         bad("service-deadlock" if isinstance(run.crash, VirtualDeadlock) else "service-crash", f"the program did not finish: {describe_exc(run.crash)}")
         return V, c
     specs = {st[1]: st[2] for st in prog["steps"] if st[0] == "service"}
+    xspecs = {st[1]: st[2] for st in prog["steps"] if st[0] == "teardown_starts_service"}
+    for xs in xspecs.values():
+        specs[xs["sid"]] = xs
     left = next((e for e in ev if e["kind"] == "left"), None)
     block_end = next((e for e in ev if e["kind"] == "block-end"), None)
     if left is None:
@@ -317,19 +387,24 @@ def check_service(run: ServiceRun) -> tuple[list[dict[str, Any]], dict[str, int]
         return V, c
     # ---- every started service: context, snapshot, start value
     spawn = {e["actor"]: e for e in ev if e["kind"] == "svc-spawn"}
+    snapshots: dict[Any, Any] = {}
     for e in ev:
         if e["kind"] == "svc-start":
             inc("services_started")
             if not e["parent_is_owner"]:
                 bad("service-context-parent", f"service task {e['actor']} does not run in a child context of its owning context")
-            if e["visible"] != spawn[e["actor"]]["visible_expected"]:
-                bad("service-snapshot", f"service task {e['actor']} sees resources {e['visible']}, registered before it was started: {spawn[e['actor']]['visible_expected']}")
+            # the snapshot is taken when the task starts running (another task may register something between the
+            # start_service_task() call and that moment)
+            at_start = sorted(r["actor"] for r in ev if r["kind"] == "reg" and r["actor"][0] == "r" and r["seq"] < e["seq"])
+            snapshots[e["actor"]] = at_start
+            if e["visible"] != at_start:
+                bad("service-snapshot", f"service task {e['actor']} sees resources {e['visible']}, registered before it started running: {at_start}")
     for e in ev:
         if e["kind"] == "svc-body-end" and "visible" in e:
             inc("service_snapshots_rechecked_at_end")
-            if e["visible"] != spawn[e["actor"]]["visible_expected"]:
+            if e["visible"] != snapshots.get(e["actor"]):
                 bad("service-snapshot", f"at its end service task {e['actor']} sees resources {e['visible']}; its context is a snapshot taken when it was started: "
-                                        f"{spawn[e['actor']]['visible_expected']}")
+                                        f"{snapshots.get(e['actor'])}")
     for sid, spec in specs.items():
         reg = next((e for e in ev if e["kind"] == "reg" and e["actor"] == f"s{sid}"), None)
         if reg is not None:
@@ -337,18 +412,28 @@ def check_service(run: ServiceRun) -> tuple[list[dict[str, Any]], dict[str, int]
             if reg["start_value"] != want:
                 bad("service-start-value", f"start_service_task returned {reg['start_value']}, expected {want}")
     # ---- teardown: fold the LIFO stack into the expected schedule
-    regs = [e["actor"] for e in ev if e["kind"] == "reg"]
+    regs = [e["actor"] for e in ev if e["kind"] == "reg" and not e.get("during_teardown")]
     t = block_end["vt"] if block_end else 0.0
     spawn_time = {sid: next(e["vt"] for e in ev if e["kind"] == "svc-spawn" and e["actor"] == sid) for sid in specs if sid in spawn}
     expected_order: list[Any] = []  # ("td-run", name, t) | ("svc", sid, end_time|None, invoked, observe_cancel, state)
-    for name in reversed(regs):
+    pending = list(regs)
+    while pending:
+        name = pending.pop()
         if name[0] in "rt":
             expected_order.append(("td-run", name, t))
+            continue
+        if name[0] == "x":
+            # a teardown callback that starts a service task: the new task's finalizer is registered last, so it runs next
+            expected_order.append(("td-run", name, t))
+            xs = xspecs[int(name[1:])]
+            spawn_time[xs["sid"]] = t
+            pending.append(f"s{xs['sid']}")
+            inc("services_started_during_teardown")
             continue
         sid = int(name[1:])
         spec = specs[sid]
         action = spec["action"]
-        self_end = spawn_time[sid] + spec["ends_by_itself"] if spec["ends_by_itself"] is not None else None
+        self_end = spawn_time[sid] + spec.get("start_delay", 0) + spec["ends_by_itself"] if spec["ends_by_itself"] is not None else None
         own = 0.25 if spec["own_teardown"] else 0
         if self_end is not None and self_end + spec["cleanup"] + own <= t:
             state = "over"
@@ -422,6 +507,8 @@ def check_service(run: ServiceRun) -> tuple[list[dict[str, Any]], dict[str, int]
         n_action = sum(1 for e in ev if e["kind"] == "svc-action" and e["actor"] == sid)
         was_cancelled = any(e["kind"] == "svc-cancelled" and e["actor"] == sid for e in ev)
         inc(f"action_{specs[sid]['action']}")
+        if invoked:
+            inc(f"action_form_{specs[sid].get('action_form', 'function')}")
         inc(f"service_state_at_teardown_{state}")
         if invoked and n_action != 1:
             bad("service-action-count", f"teardown action of service {sid} was invoked {n_action} times")
@@ -435,6 +522,10 @@ def check_service(run: ServiceRun) -> tuple[list[dict[str, Any]], dict[str, int]
             bad("service-wrongly-cancelled", f"service {sid} (teardown_action={specs[sid]['action']}) was cancelled although it must be "
                                              f"{'awaited' if specs[sid]['action'] == 'none' else 'stopped by its callable'}")
     # was anything registered before a service torn down while the service still ran?
+    if any(e.get("by") == "party" and any(s2["kind"] == "svc-spawn" and s2["seq"] < e["seq"] and
+                                           next((r["seq"] for r in ev if r["kind"] == "reg" and r["actor"] == f"s{s2['actor']}"), 1 << 60) > e["seq"]
+                                           for s2 in ev) for e in ev if e["kind"] == "reg"):
+        inc("registrations_while_a_service_was_starting")
     if any(st[0] == "service" for st in prog["steps"]) and any(n[0] in "rt" for n in regs):
         inc("programs_with_registrations_around_services")
     if prog["nested"]:
@@ -483,6 +574,11 @@ def gen_factory_program(rng: Any) -> dict[str, Any]:
                     "task_status": rng.random() < 0.5, "name": rng.choice([None, f"task{tid}"])}
             if spec["from"] == "foreign_sync":
                 spec["via"] = "start_task_soon"
+            if outcome == "return" and rng.random() < 0.25:
+                # when this task is done it spawns a successor (possibly while the owning context is already being torn down,
+                # waiting for this very task): the successor must be awaited as well, not cancelled
+                spec["late_child_spec"] = {"tid": fresh(), "via": rng.choice(["start_task_soon", "start_task"]), "from": "task", "dur": rng.choice([0.625, 2.125]),
+                                           "outcome": "return", "exc": "ValueError", "task_status": False, "name": None}
             if spec["from"] == "task":
                 # spawned by another spawned task, right when that one starts
                 spec["parent_spec"] = {"tid": fresh(), "via": "start_task_soon", "from": "owner", "dur": rng.choice([0.125, 1.125]), "outcome": "return",
@@ -545,6 +641,13 @@ class FactoryRun:
             except BaseException as e:
                 run.log("task-end", tid, how="cancelled" if is_cancellation(e) else describe_exc(e))
                 raise
+            late = spec.get("late_child_spec")
+            if late is not None:
+                try:
+                    await run.spawn(late, "task-at-its-end", ctx)
+                except BaseException as e:
+                    run.log("task-end", tid, how="cancelled" if is_cancellation(e) else describe_exc(e))
+                    raise
             if spec["outcome"] == "raise":
                 exc = make_exc(spec["exc"], f"task{tid}")
                 run.raised[tid] = exc
@@ -762,6 +865,8 @@ def check_factory(run: FactoryRun) -> tuple[list[dict[str, Any]], dict[str, int]
             specs[cmd[1]["tid"]] = cmd[1]
             if cmd[1]["from"] == "task":
                 specs[cmd[1]["parent_spec"]["tid"]] = cmd[1]["parent_spec"]
+            if cmd[1].get("late_child_spec"):
+                specs[cmd[1]["late_child_spec"]["tid"]] = cmd[1]["late_child_spec"]
     verdict = HANDLER_VERDICTS[prog["handler"]] if prog["handler"] is not None else None
     swallow = prog["handler"] is not None and bool(verdict)
     start = {e["actor"]: e for e in ev if e["kind"] == "task-start"}
@@ -858,6 +963,8 @@ def check_factory(run: FactoryRun) -> tuple[list[dict[str, Any]], dict[str, int]
             tid = e["actor"]
             inc("wait_finished_returns")
             te = end.get(tid)
+            if fatal_seq is not None and e["seq"] > fatal_seq:
+                continue  # after a propagating failure everything is being cancelled: only surfacing is checked
             if te is None or te["seq"] > e["seq"]:
                 if tid in start or tid not in cancels:
                     bad("factory-wait-early", f"wait_finished() of task {tid} returned before the task's last event")
@@ -906,6 +1013,8 @@ def check_factory(run: FactoryRun) -> tuple[list[dict[str, Any]], dict[str, int]
         running_at_end = [tid for tid, s in start.items() if tid in end and end[tid]["seq"] > block_end["seq"]]
         if running_at_end:
             inc("owner_left_with_tasks_running")
+        if any(e["kind"] == "spawn-call" and e["seq"] > block_end["seq"] for e in ev):
+            inc("tasks_spawned_during_teardown")
         late = [e for e in ev if e["seq"] > left["seq"] and e["kind"] in ("task-start", "task-end")]
         if late:
             bad("factory-task-after-exit", f"task {late[0]['actor']} produced {late[0]['kind']} after the owning context had been left")
